@@ -24,5 +24,12 @@ for key in sorted(res, key=lambda k: (k.split("/")[1], k)):
     n_s += not r["killed"]
     lines.append(f"| {mid} | {prop} | {verdict} ({r.get('tier','quick')}, {r.get('wall_s','?')} s) | `{mech}` | {r.get('what', what.get(mid, ''))} |")
 lines += ["", f"{n_k} killed, {n_s} survived."]
+lines += [
+    "",
+    "Survivors, explained (DESIGN.md sec. 8.2):",
+    "",
+    "* `S:C08e-...` - a two-site change; C08's own check does not see it (it needs TPs outnumbering the counted ground truths), both sites are caught by C10, C03 and C04.",
+    "* `S:C14h-...` - does not violate C14 as stated (no traffic-light table is documented for `fp_validation2d`; the changed converter stays self-consistent).",
+]
 open(os.path.join(ROOT, "mutants", "KILLMATRIX.md"), "w").write("\n".join(lines) + "\n")
 print(f"{n_k} killed, {n_s} survived")
